@@ -574,7 +574,9 @@ package parser
 //@   modifies p.current, p.errors, p.defaultYear, p.lexer.pos, p.lexer.column, p.lexer.line, p.lexer.atStart
 
 // PLine: a posting starts on a line of the input (AST well-formedness that the formatter and the range builders rely on).
-//@ pred PLine(po, n) := po.Range.Start.Line >= 1 && po.Range.Start.Line <= n + 1
+//@ pred PLine(po, n) := po.Range.Start.Line >= 1 && po.Range.Start.Line <= n + 1 && PosIn(po.Account.Range.Start, n) && PosIn(po.Account.Range.End, n)
+// DirOK: the account / commodity named by a directive has a range inside the input.
+//@ pred DirOK(d, n) := (typeis(d, "ast.AccountDirective") ==> PosIn(as(d, "ast.AccountDirective").Account.Range.Start, n) && PosIn(as(d, "ast.AccountDirective").Account.Range.End, n)) && (typeis(d, "ast.CommodityDirective") && as(d, "ast.CommodityDirective").Commodity.Range.Start.Line != 0 ==> PosIn(as(d, "ast.CommodityDirective").Commodity.Range.Start, n) && PosIn(as(d, "ast.CommodityDirective").Commodity.Range.End, n))
 //@ func (*Parser).parsePosting
 //@   props C06
 //@   requires ParInv(p)
@@ -601,9 +603,11 @@ package parser
 //@   requires ParInv(p)
 //@   ensures [inv] ParInv(p) && PFrame(p) && p.current.Type == TokenEOF
 //@   ensures [nonnil] result != nil && fresh(result)
+//@   ensures [directive_ranges] forall d int :: {result.Directives[d]} 0 <= d && d < len(result.Directives) ==> DirOK(result.Directives[d], len(p.lexer.input))
 //@   ensures [posting_lines] forall i int, k int :: {result.Transactions[i].Postings[k]} 0 <= i && i < len(result.Transactions) && 0 <= k && k < len(result.Transactions[i].Postings) ==> PLine(result.Transactions[i].Postings[k], len(p.lexer.input))
 //@   modifies p.current, p.errors, p.defaultYear, p.lexer.pos, p.lexer.column, p.lexer.line, p.lexer.atStart
 //@   loop 1 invariant ParInv(p) && PFrame(p) && journal != nil && fresh(journal)
+//@   loop 1 invariant forall d int :: {journal.Directives[d]} 0 <= d && d < len(journal.Directives) ==> DirOK(journal.Directives[d], len(p.lexer.input))
 //@   loop 1 invariant forall i int, k int :: {journal.Transactions[i].Postings[k]} 0 <= i && i < len(journal.Transactions) && 0 <= k && k < len(journal.Transactions[i].Postings) ==> PLine(journal.Transactions[i].Postings[k], len(p.lexer.input))
 //@   loop 1 decreases 2 * (len(p.lexer.input) - p.lexer.pos) + ite(p.current.Type != TokenEOF, 1, 0)
 
@@ -621,6 +625,7 @@ package parser
 //@   props C06 C08
 //@   requires ParInv(p)
 //@   ensures [inv] ParInv(p) && PFrame(p) && MuLe(p)
+//@   ensures [kind] !typeis(result, "ast.CommodityDirective")
 //@   ensures [C08:account_range] typeis(result, "ast.AccountDirective") ==> PosIn(as(result, "ast.AccountDirective").Account.Range.Start, len(p.lexer.input)) && PosIn(as(result, "ast.AccountDirective").Account.Range.End, len(p.lexer.input))
 //@   modifies p.current, p.errors, p.defaultYear, p.lexer.pos, p.lexer.column, p.lexer.line, p.lexer.atStart
 //@   loop 1 invariant ParInv(p) && PFrame(p) && MuLe(p)
@@ -630,6 +635,7 @@ package parser
 //@   props C06 C08
 //@   requires ParInv(p)
 //@   ensures [inv] ParInv(p) && PFrame(p) && MuLe(p)
+//@   ensures [kind] !typeis(result, "ast.AccountDirective")
 //@   ensures [C08:commodity_range] typeis(result, "ast.CommodityDirective") && as(result, "ast.CommodityDirective").Commodity.Range.Start.Line != 0 ==> PosIn(as(result, "ast.CommodityDirective").Commodity.Range.Start, len(p.lexer.input)) && PosIn(as(result, "ast.CommodityDirective").Commodity.Range.End, len(p.lexer.input))
 //@   modifies p.current, p.errors, p.defaultYear, p.lexer.pos, p.lexer.column, p.lexer.line, p.lexer.atStart
 //@   loop 1 invariant ParInv(p) && PFrame(p) && MuLe(p)
@@ -638,6 +644,7 @@ package parser
 //@ func (*Parser).parseIncludeDirective
 //@   props C06
 //@   requires ParInv(p)
+//@   ensures [other_kind] !typeis(result, "ast.AccountDirective") && !typeis(result, "ast.CommodityDirective")
 //@   ensures [inv] ParInv(p) && PFrame(p) && MuLe(p)
 //@   modifies p.current, p.errors, p.defaultYear, p.lexer.pos, p.lexer.column, p.lexer.line, p.lexer.atStart
 //@   loop 1 invariant ParInv(p) && PFrame(p) && MuLe(p)
@@ -646,25 +653,29 @@ package parser
 //@ func (*Parser).parsePriceDirective
 //@   props C06
 //@   requires ParInv(p)
+//@   ensures [other_kind] !typeis(result, "ast.AccountDirective") && !typeis(result, "ast.CommodityDirective")
 //@   ensures [inv] ParInv(p) && PFrame(p) && MuLe(p)
 //@   modifies p.current, p.errors, p.defaultYear, p.lexer.pos, p.lexer.column, p.lexer.line, p.lexer.atStart
 
 //@ func (*Parser).parseDefaultCommodityDirective
 //@   props C06
 //@   requires ParInv(p)
+//@   ensures [other_kind] !typeis(result, "ast.AccountDirective") && !typeis(result, "ast.CommodityDirective")
 //@   ensures [inv] ParInv(p) && PFrame(p) && MuLe(p)
 //@   modifies p.current, p.errors, p.defaultYear, p.lexer.pos, p.lexer.column, p.lexer.line, p.lexer.atStart
 
 //@ func (*Parser).parseYearDirective
 //@   props C06
 //@   requires ParInv(p)
+//@   ensures [other_kind] !typeis(result, "ast.AccountDirective") && !typeis(result, "ast.CommodityDirective")
 //@   ensures [inv] ParInv(p) && PFrame(p) && MuLe(p)
 //@   modifies p.current, p.errors, p.defaultYear, p.lexer.pos, p.lexer.column, p.lexer.line, p.lexer.atStart
 
 //@ func (*Parser).parseDirective
-//@   props C06
+//@   props C06 C08
 //@   requires ParInv(p)
 //@   ensures [inv] ParInv(p) && PFrame(p) && MuLe(p)
+//@   ensures [C08:directive_ranges] DirOK(result, len(p.lexer.input))
 //@   ensures [lt] old(p.current.Type) != TokenEOF ==> MuLt(p)
 //@   modifies p.current, p.errors, p.defaultYear, p.lexer.pos, p.lexer.column, p.lexer.line, p.lexer.atStart
 
@@ -677,5 +688,6 @@ package parser
 //@   props C06 C11
 //@   ghostdef [parsed_from] parsedFrom(result0) == input && nErrs(result0) == len(result1)
 //@   ensures [nonnil] result0 != nil && fresh(result0)
+//@   ensures [directive_ranges] forall d int :: {result0.Directives[d]} 0 <= d && d < len(result0.Directives) ==> DirOK(result0.Directives[d], len(input))
 //@   ensures [posting_lines] forall i int, k int :: {result0.Transactions[i].Postings[k]} 0 <= i && i < len(result0.Transactions) && 0 <= k && k < len(result0.Transactions[i].Postings) ==> PLine(result0.Transactions[i].Postings[k], len(input))
 //@   ensures [C08:errpos] forall k int :: {result1[k]} 0 <= k && k < len(result1) ==> PosIn(result1[k].Pos, len(input))
